@@ -93,8 +93,8 @@ theorem chunked_roundtrip_take {r : Rec} {n : Nat} {f0 : FieldSpec} (hr : ChunkR
     RADII, LAYER, XYZ, MINC volumes, INCON/INDOM variables, DIFFU; and the extra-precision generator tables) is a
     uniform numeric record of 4 or 8 fields: the three theorems above apply to all of them -/
 theorem all_chunk_records :
-    (∀ e ∈ mainChunks, ∃ r, mainTabs.get e.1 = .ok r ∧ ChunkRec r e.2.1 e.2.2 ∧ 0 < e.2.1) ∧
-    (∀ e ∈ xpChunks, ∃ r, xpTabs.get e.1 = .ok r ∧ ChunkRec r e.2.1 e.2.2 ∧ 0 < e.2.1) :=
+    (∀ e ∈ mainChunks, ∃ r, mainTabs.get e.1 = .ok r ∧ ChunkRec r e.2 (fieldAt mainTabs e.1 0) ∧ 0 < e.2) ∧
+    (∀ e ∈ xpChunks, ∃ r, xpTabs.get e.1 = .ok r ∧ ChunkRec r e.2 (fieldAt xpTabs e.1 0) ∧ 0 < e.2) :=
   ⟨fun e he => chunkOK_spec (main_chunks_ok e he), fun e he => chunkOK_spec (xp_chunks_ok e he)⟩
 
 /-- **untilBlank_roundtrip.**  Records written one after the other and closed by a blank line (or a stop line
@@ -118,66 +118,54 @@ theorem block_name_cycle {n : Str} (h : n.length = 5) :
 
 /-! ### sections -/
 
+/-- field `i` of a record kind of the main / extra-precision table of the current /repo -/
+abbrev mf (n : Str) (i : Nat) : FieldSpec := fieldAt mainTabs n i
+abbrev xf (n : Str) (i : Nat) : FieldSpec := fieldAt xpTabs n i
+
 /-- **section_roundtrip_TIMES** (current main table): `num_times_specified = len(time)` for any length -/
 theorem section_roundtrip_TIMES (o o0 : OutputTimes) (ts : List Val) (htime : o.time = some ts)
     (hn : o.d.get c!"num_times_specified" = some (.int (Int.ofNat ts.length)))
     (hkeep : (absorb (recOf mainTabs c!"output_times1").names
         (canonVals (recOf mainTabs c!"output_times1") (lineVals (recOf mainTabs c!"output_times1") o.d)) o0.d).get
           c!"num_times_specified" = some (.int (Int.ofNat ts.length)))
-    (hx : ∀ x ∈ ts, canonV e10_4 x ≠ Val.none)
+    (hx : ∀ x ∈ ts, canonV (mf c!"output_times2" 0) x ≠ Val.none)
     {lines : List Str} (hw : writeTimes mainTabs o = .ok lines) (rest : List Str) :
     ∃ kwline body, lines = kwline :: body ∧
       readTimes .default mainTabs o0 (body ++ rest) =
         .ok ({ d := absorb (recOf mainTabs c!"output_times1").names
                       (canonVals (recOf mainTabs c!"output_times1") (lineVals (recOf mainTabs c!"output_times1") o.d)) o0.d,
-               time := some (ts.map (canonV e10_4)) }, rest) := by
-  obtain ⟨r2, h2, hc, _⟩ := chunkOK_spec (main_chunks_ok (c!"output_times2", 8, e10_4) (by decide))
-  have h1 : mainTabs.get c!"output_times1" = .ok (recOf mainTabs c!"output_times1") := by decide +kernel
-  have hr1 : RecWF (recOf mainTabs c!"output_times1") := recWFb_spec (by decide +kernel)
-  exact Proofs.T2.section_roundtrip_TIMES mainTabs h1 h2 hr1 hc o o0 ts htime hn hkeep hx hw rest
+               time := some (ts.map (canonV (mf c!"output_times2" 0))) }, rest) := by
+  obtain ⟨r2, h2, hc, _⟩ := chunkOK_spec (main_chunks_ok (c!"output_times2", 8) (by decide))
+  exact Proofs.T2.section_roundtrip_TIMES mainTabs main_times_rec.1 h2 main_times_rec.2 hc o o0 ts htime hn hkeep hx hw rest
 
 /-- **section_roundtrip_ELEME** for the main table and for the extra-precision table of the current /repo -/
-theorem section_roundtrip_ELEME (rocks : List Rock) (bs : List Block) (hb : ∀ b ∈ bs, GoodBlock rocks b) (rest : List Str) :
-    ((∀ b ∈ bs, ∃ l, writeBlock mainTabs b = .ok l) →
-      readBlocks .default mainTabs rocks
-          ((bs.map (fun b => match writeBlock mainTabs b with | .ok l => [l] | .error _ => [])).flatten ++ nl [] :: rest) =
-        .ok ((bs.map (canonBlock d5 d5 e10_4 e10_4 e10_4 e10_3 e10_3 e10_3)).foldl addBlock [], rest)) ∧
-    ((∀ b ∈ bs, ∃ l, writeBlock xpTabs b = .ok l) →
-      readBlocks .default xpTabs rocks
-          ((bs.map (fun b => match writeBlock xpTabs b with | .ok l => [l] | .error _ => [])).flatten ++ nl [] :: rest) =
-        .ok ((bs.map (canonBlock d5 d5 e15_8 e15_8 e15_8 e15_8 e15_8 e15_8)).foldl addBlock [], rest)) := by
-  obtain ⟨r, hT, hs⟩ := main_block_shape
-  obtain ⟨rx, hTx, hsx⟩ := xp_block_shape
-  exact ⟨fun hw => Proofs.T2.section_roundtrip_ELEME hT hs rocks bs hb hw rest,
-         fun hw => Proofs.T2.section_roundtrip_ELEME hTx hsx rocks bs hb hw rest⟩
+theorem section_roundtrip_ELEME (T : Tabs) (hT : T = mainTabs ∨ T = xpTabs) (rocks : List Rock) (bs : List Block)
+    (hb : ∀ b ∈ bs, GoodBlock rocks b) (hw : ∀ b ∈ bs, ∃ l, writeBlock T b = .ok l) (rest : List Str) :
+    readBlocks .default T rocks
+        ((bs.map (fun b => match writeBlock T b with | .ok l => [l] | .error _ => [])).flatten ++ nl [] :: rest) =
+      .ok ((bs.map (canonBlock (fieldAt T c!"blocks" 1) (fieldAt T c!"blocks" 2) (fieldAt T c!"blocks" 4)
+              (fieldAt T c!"blocks" 5) (fieldAt T c!"blocks" 6) (fieldAt T c!"blocks" 7) (fieldAt T c!"blocks" 8)
+              (fieldAt T c!"blocks" 9))).foldl addBlock [], rest) :=
+  Proofs.T2.section_roundtrip_ELEME (block_shape T hT).1 (block_shape T hT).2 rocks bs hb hw rest
 
 /-- **section_roundtrip_CONNE** for the main table and for the extra-precision table of the current /repo -/
-theorem section_roundtrip_CONNE (blocks : List Block) (cs : List Conn) (hc : ∀ c ∈ cs, GoodConn blocks c) (rest : List Str) :
-    ((∀ c ∈ cs, ∃ l, writeConn mainTabs c = .ok l) →
-      readConns .default mainTabs blocks
-          ((cs.map (fun c => match writeConn mainTabs c with | .ok l => [l] | .error _ => [])).flatten ++ nl [] :: rest) =
-        .ok ((cs.map (canonConn d5 d5 d5 d5 e10_4 e10_4 e10_4 f10_7 e10_3)).foldl addConn [], rest)) ∧
-    ((∀ c ∈ cs, ∃ l, writeConn xpTabs c = .ok l) →
-      readConns .default xpTabs blocks
-          ((cs.map (fun c => match writeConn xpTabs c with | .ok l => [l] | .error _ => [])).flatten ++ nl [] :: rest) =
-        .ok ((cs.map (canonConn d5 d5 d5 d5 e15_8 e15_8 e15_8 f15_8 e15_8)).foldl addConn [], rest)) := by
-  obtain ⟨r, hT, hs⟩ := main_conn_shape
-  obtain ⟨rx, hTx, hsx⟩ := xp_conn_shape
-  exact ⟨fun hw => Proofs.T2.section_roundtrip_CONNE hT hs blocks cs hc hw rest,
-         fun hw => Proofs.T2.section_roundtrip_CONNE hTx hsx blocks cs hc hw rest⟩
+theorem section_roundtrip_CONNE (T : Tabs) (hT : T = mainTabs ∨ T = xpTabs) (blocks : List Block) (cs : List Conn)
+    (hc : ∀ c ∈ cs, GoodConn blocks c) (hw : ∀ c ∈ cs, ∃ l, writeConn T c = .ok l) (rest : List Str) :
+    readConns .default T blocks
+        ((cs.map (fun c => match writeConn T c with | .ok l => [l] | .error _ => [])).flatten ++ nl [] :: rest) =
+      .ok ((cs.map (canonConn (fieldAt T c!"connections" 2) (fieldAt T c!"connections" 3) (fieldAt T c!"connections" 4)
+              (fieldAt T c!"connections" 5) (fieldAt T c!"connections" 6) (fieldAt T c!"connections" 7)
+              (fieldAt T c!"connections" 8) (fieldAt T c!"connections" 9) (fieldAt T c!"connections" 10))).foldl addConn [], rest) :=
+  Proofs.T2.section_roundtrip_CONNE (conn_shape T hT).1 (conn_shape T hT).2 blocks cs hc hw rest
 
 /-- **section_roundtrip_INCON** (current main table) -/
 theorem section_roundtrip_INCON (es : List Incon) (hn : ∀ e ∈ es, GoodName e.name)
     (hw : ∀ e ∈ es, ∃ ls, writeIncon mainTabs e = .ok ls) (d0 : List Incon) (rest : List Str) :
     readIncons .default mainTabs d0
         ((es.map (fun e => match writeIncon mainTabs e with | .ok ls => ls | .error _ => [])).flatten ++ nl [] :: rest) =
-      .ok ((es.map (canonIncon (recOf mainTabs c!"incon2") d5 d5 e15_9)).foldl setIncon d0, rest) := by
-  obtain ⟨r1, r2, h1, h2, hs⟩ := main_incon_shape
-  have : r2 = recOf mainTabs c!"incon2" := by
-    have h2' : mainTabs.get c!"incon2" = .ok (recOf mainTabs c!"incon2") := by decide +kernel
-    rw [h2] at h2'; cases h2'; rfl
-  subst this
-  exact Proofs.T2.section_roundtrip_INCON h1 h2 hs es hn hw d0 rest
+      .ok ((es.map (canonIncon (recOf mainTabs c!"incon2") (mf c!"incon1" 1) (mf c!"incon1" 2) (mf c!"incon1" 3))).foldl
+            setIncon d0, rest) :=
+  Proofs.T2.section_roundtrip_INCON incon_shape.1 incon_shape.2.1 incon_shape.2.2 es hn hw d0 rest
 
 /-- **section_roundtrip_FOFT / GOFT**: names in order, as names (no grid yet) or as the grid's blocks -/
 theorem section_roundtrip_FOFT_GOFT (kw : Str) (items : List HItem) (hne : items ≠ [])
@@ -254,8 +242,8 @@ theorem dispatch_as_modelled :
 /-! ### the hypotheses are satisfiable (non-vacuity) -/
 
 -- a chunk record of the current table, a list straddling the 8-per-line boundary (9 values → 2 lines)
-example : ∃ r, mainTabs.get c!"output_times2" = .ok r ∧ ChunkRec r 8 e10_4 := by
-  obtain ⟨r, h, hc, _⟩ := chunkOK_spec (main_chunks_ok (c!"output_times2", 8, e10_4) (by decide))
+example : ∃ r, mainTabs.get c!"output_times2" = .ok r ∧ ChunkRec r 8 (mf c!"output_times2" 0) := by
+  obtain ⟨r, h, hc, _⟩ := chunkOK_spec (main_chunks_ok (c!"output_times2", 8) (by decide))
   exact ⟨r, h, hc⟩
 example : ((9 + 8 - 1) / 8 = 2) ∧ ((8 + 8 - 1) / 8 = 1) ∧ ((12 + 4 - 1) / 4 = 3) := by decide
 -- good names: plain, with a blank in column 4, with a zero in column 4
